@@ -407,6 +407,12 @@ pub fn exercise(r: &AnyRule, p: Path, existing: bool) -> Result<u64, String> {
             e.exit();
         }
         let _ = (flow::get_rules_of_resource(&UNRELATED.to_string()), cb::get_breakers_of_resource(&UNRELATED.to_string()));
+        // the documented way to clear one resource: an empty list through the per-resource loader
+        let _ = flow::load_rules_of_resource(&UNRELATED.to_string(), vec![]);
+        let _ = hotspot::load_rules_of_resource(&UNRELATED.to_string(), vec![]);
+        let _ = cb::load_rules_of_resource(&UNRELATED.to_string(), vec![]);
+        let _ = isolation::load_rules_of_resource(&UNRELATED.to_string(), vec![]);
+        let _ = (flow::get_rules(), cb::get_rules(), hotspot::get_rules(), isolation::get_rules());
     })?;
     Ok(n)
 }
